@@ -114,7 +114,7 @@ func enumCore(ex exclusions, rec *ev.Rec, yield func(Case) bool) {
 								uses = append(uses, useSpec{name: set[0], place: other, fallback: fallback})
 							}
 							c := Case{Comps: map[string]Comp{}, Data: fixedData(variant), Compact: variant%3 == 0}
-							c.Comps[ci.file] = b.leaf(ci, uses, variant%2 == 0, nil)
+							c.Comps[ci.file] = b.leaf(ci, uses, variant%2 == 0, nil, []string{"div", "div", "flat", "template", "div"}[variant%5])
 							var insts []Node
 							for inst := 0; inst < 2; inst++ {
 								var plans []supplyPlan
@@ -144,8 +144,10 @@ func enumCore(ex exclusions, rec *ev.Rec, yield func(Case) bool) {
 // Random search
 // ---------------------------------------------------------------------------------------------
 
+var shapes = []string{"div", "div", "div", "flat", "template"}
+
 func genLeafInfo(t *rapid.T, idx int, elem string) (compInfo, []useSpec) {
-	ci := compInfo{idx: idx, file: fmt.Sprintf("k%d.vuego", idx), elem: elem, slots: map[string]slotInfo{}}
+	ci := compInfo{idx: idx, file: fmt.Sprintf("k%d.vuego", idx), elem: elem, slots: map[string]slotInfo{}, multi: map[string]bool{}}
 	if rapid.IntRange(0, 3).Draw(t, "dir") == 0 {
 		ci.file = fmt.Sprintf("parts/k%d.vuego", idx)
 	}
@@ -165,6 +167,9 @@ func genLeafInfo(t *rapid.T, idx int, elem string) (compInfo, []useSpec) {
 			uses = append(uses, useSpec{})
 			copy(uses[at+1:], uses[at:])
 			uses[at] = u
+			if j > 0 || u.place == "loop" {
+				ci.multi[name] = true
+			}
 		}
 	}
 	return ci, uses
@@ -219,12 +224,12 @@ func genCase(t *rapid.T, ex exclusions, rec *ev.Rec) Case {
 	c := Case{Comps: map[string]Comp{}, Data: genData(t), Compact: rapid.IntRange(0, 3).Draw(t, "compact") == 0}
 
 	k1, u1 := genLeafInfo(t, 1, elem)
-	c.Comps[k1.file] = b.leaf(k1, u1, rapid.Bool().Draw(t, "fm1"), nil)
+	c.Comps[k1.file] = b.leaf(k1, u1, rapid.Bool().Draw(t, "fm1"), nil, rapid.SampledFrom(shapes).Draw(t, "shape1"))
 	avail := []compInfo{k1}
 	leaves := []compInfo{k1}
 	if rapid.Bool().Draw(t, "k2") {
 		k2, u2 := genLeafInfo(t, 2, elem)
-		c.Comps[k2.file] = b.leaf(k2, u2, rapid.Bool().Draw(t, "fm2"), nil)
+		c.Comps[k2.file] = b.leaf(k2, u2, rapid.Bool().Draw(t, "fm2"), nil, rapid.SampledFrom(shapes).Draw(t, "shape2"))
 		avail = append(avail, k2)
 		leaves = append(leaves, k2)
 	}
@@ -251,6 +256,12 @@ func genCase(t *rapid.T, ex exclusions, rec *ev.Rec) Case {
 				if done {
 					return nil
 				}
+				if ex.frozen && ci.multi[pl.name] {
+					// open known finding: an include tag inside content that fills a slot more than
+					// once keeps the prop values of the first use
+					rec.Excluded("C06-include-in-slot-content-frozen")
+					return nil
+				}
 				done = true
 				o := incOpts{p: fmt.Sprintf("p%dn", i), scope: scope, varName: "sq", static: true,
 					title: KV{K: inner.title(), V: fmt.Sprintf("N%d", i)}, num: "pn", rec: "prec"}
@@ -265,7 +276,66 @@ func genCase(t *rapid.T, ex exclusions, rec *ev.Rec) Case {
 		insts = append(insts, b.instance(ci, i, inLoop, plans, ex, rec, hook))
 	}
 	c.Page = page(b, insts)
+	if rapid.IntRange(0, 5).Draw(t, "layout") == 0 {
+		// layouts/base.vuego wraps the page and contains a component instance of its own
+		ci := avail[rapid.IntRange(0, len(avail)-1).Draw(t, "layout-which")]
+		plans := genPlans(t, ci, true)
+		if ex.layoutLeak {
+			// open known finding: names the page supplies in #name / v-slot:name form leak into layout
+			// instances that do not supply them; make the layout instance supply those itself
+			named := map[string]bool{}
+			namedSupplies(c.Page, named)
+			for _, name := range ci.innerOpen {
+				if named[name] {
+					// the leak would reach the component nested in ci: use a leaf component instead
+					rec.Excluded("C06-layout-leaks-instance-slot-content")
+					ci = avail[0]
+					plans = genPlans(t, ci, true)
+					break
+				}
+			}
+			for _, name := range ci.order {
+				if !named[name] || planned(plans, name) {
+					continue
+				}
+				rec.Excluded("C06-layout-leaks-instance-slot-content")
+				plans = append(plans, supplyPlan{name: name, form: "long"})
+			}
+		}
+		inst := b.instance(ci, 7, false, plans, ex, rec, nil)
+		c.Layout = []Node{{K: "el", Tag: "div", M: "ly", Kids: []Node{
+			{K: "el", Tag: "span", M: "lyh", Kids: []Node{{K: "text", T: []Part{{X: "pa"}}}}},
+			{K: "content", Tag: "div", M: "lyc"},
+			inst,
+		}}}
+		if rapid.Bool().Draw(t, "layout-inst-first") {
+			k := c.Layout[0].Kids
+			k[1], k[2] = k[2], k[1]
+		}
+	}
 	return c
+}
+
+func planned(plans []supplyPlan, name string) bool {
+	for _, p := range plans {
+		if p.name == name {
+			return true
+		}
+	}
+	return false
+}
+
+// namedSupplies collects the names of all #name / v-slot:name templates in a template.
+func namedSupplies(nodes []Node, into map[string]bool) {
+	for _, n := range nodes {
+		for _, s := range n.Sup {
+			if s.Form != "bare" {
+				into[s.Name] = true
+			}
+			namedSupplies(s.Kids, into)
+		}
+		namedSupplies(n.Kids, into)
+	}
 }
 
 // genOuter builds k3: a component with (possibly) slots of its own whose body includes a leaf
@@ -273,7 +343,7 @@ func genCase(t *rapid.T, ex exclusions, rec *ev.Rec) Case {
 // (forwarding what k3's includer supplied into the inner component).
 func genOuter(t *rapid.T, b *builder, c *Case, leaves []compInfo, elem string, ex exclusions, rec *ev.Rec) compInfo {
 	inner := leaves[rapid.IntRange(0, len(leaves)-1).Draw(t, "outer-inner")]
-	k3 := compInfo{idx: 3, file: "k3.vuego", elem: elem, slots: map[string]slotInfo{}}
+	k3 := compInfo{idx: 3, file: "k3.vuego", elem: elem, slots: map[string]slotInfo{}, multi: map[string]bool{}}
 	fm := rapid.Bool().Draw(t, "fm3")
 	propSets := [][]string{nil, {"item"}, {"item", "n"}}
 	// direct uses
@@ -282,7 +352,9 @@ func genOuter(t *rapid.T, b *builder, c *Case, leaves []compInfo, elem string, e
 	for _, name := range direct {
 		k3.order = append(k3.order, name)
 		k3.slots[name] = slotInfo{props: rapid.SampledFrom(propSets).Draw(t, "props")}
-		uses = append(uses, useSpec{name: name, place: rapid.SampledFrom([]string{"wrap", "loop", "bare"}).Draw(t, "place"), fallback: rapid.Bool().Draw(t, "fallback")})
+		u := useSpec{name: name, place: rapid.SampledFrom([]string{"wrap", "loop", "bare"}).Draw(t, "place"), fallback: rapid.Bool().Draw(t, "fallback")}
+		k3.multi[name] = u.place == "loop"
+		uses = append(uses, u)
 	}
 	// forwarded names: not used directly
 	var fwd []string
@@ -300,6 +372,9 @@ func genOuter(t *rapid.T, b *builder, c *Case, leaves []compInfo, elem string, e
 			return nil
 		}
 		name := fwd[rapid.IntRange(0, len(fwd)-1).Draw(t, "fwd-name")]
+		if inner.multi[pl.name] {
+			k3.multi[name] = true
+		}
 		u := useSpec{name: name, fallback: fwdFallback}
 		itemX := k3.itemOutside()
 		// re-export the inner component's item through the forwarded slot when it is in reach
@@ -336,9 +411,23 @@ func genOuter(t *rapid.T, b *builder, c *Case, leaves []compInfo, elem string, e
 			delete(k3.slots, name)
 			continue
 		}
+		if have[name] >= 2 {
+			k3.multi[name] = true
+		}
 		order = append(order, name)
 	}
 	k3.order = order
-	c.Comps[k3.file] = b.leaf(k3, uses, fm, []Node{inc})
+	for _, name := range inner.order {
+		supplied := name == "" && len(inc.Kids) > 0
+		for _, sp := range inc.Sup {
+			if sp.Name == name {
+				supplied = true
+			}
+		}
+		if !supplied {
+			k3.innerOpen = append(k3.innerOpen, name)
+		}
+	}
+	c.Comps[k3.file] = b.leaf(k3, uses, fm, []Node{inc}, rapid.SampledFrom(shapes).Draw(t, "shape3"))
 	return k3
 }
